@@ -7,8 +7,42 @@ ISEQ = TC + '_isEqual'
 # ExpressionType: Empty0 Real1 Natural2 Integer3 NotANumber4 Variable5 SubOperation6
 # QOperation: NoOp0 Or1 And2 Equal3 NotEqual4 GreaterOrEqual5 LessOrEqual6 Greater7 Less8 BitwiseOr9 BitwiseAnd10 Addition11 Subtraction12
 #             Multiplication13 Division14 Remainder15 Exponent16 Error17
-OPS = dict(Or=1, And=2, Equal=3, NotEqual=4, GreaterOrEqual=5, LessOrEqual=6, Greater=7, Less=8, BitwiseOr=9, BitwiseAnd=10,
-           Addition=11, Subtraction=12, Multiplication=13, Division=14, Remainder=15, Exponent=16)
+def _enum_values(name):
+    """enumerator values of Qentem::QExpression::<name>, read from the clang AST of the current tree"""
+    import run as R
+    ast = R.get_ast('/tmp', UNIT['driver'])
+    en = ast.enums.get('Qentem::QExpression::' + name)
+    out, val = {}, -1
+    from lower import Lowerer
+    lw = Lowerer(ast)
+    for c in en.get('inner', []):
+        if c.get('kind') == 'EnumConstantDecl':
+            if c.get('inner'):
+                val = lw.const_eval(c['inner'][0])
+            else:
+                val += 1
+            out[c['name']] = val
+    return out, ast.loc.get(id(en), ('', 0, 0))
+
+
+OPS, _OPS_LOC = _enum_values('QOperation')
+ETY, _ = _enum_values('ExpressionType')
+assert (ETY['RealNumber'], ETY['NaturalNumber'], ETY['IntegerNumber']) == (1, 2, 3), 'ExpressionType numbering changed: contracts spell kinds as 1/2/3'
+
+# documented precedence, lowest binds loosest (Documentation/Template.md): or, and; comparisons; bitwise; add, subtract; multiply, divide; remainder, power
+PRECEDENCE_GROUPS = [['Or', 'And'], ['Equal', 'NotEqual', 'GreaterOrEqual', 'LessOrEqual', 'Greater', 'Less'], ['BitwiseOr', 'BitwiseAnd'],
+                     ['Addition', 'Subtraction'], ['Multiplication', 'Division'], ['Remainder', 'Exponent']]
+
+
+def precedence_fact(ast):
+    """TemplateCore::evaluate climbs by comparing QOperation enumerator values: every operator of a looser group must rank below every operator of a tighter one"""
+    out = []
+    for gi in range(len(PRECEDENCE_GROUPS) - 1):
+        lo, hi = PRECEDENCE_GROUPS[gi], PRECEDENCE_GROUPS[gi + 1]
+        ok = max(OPS[x] for x in lo) < min(OPS[x] for x in hi)
+        out.append(('precedence.%s<%s' % ('/'.join(lo), '/'.join(hi)), ok,
+                    'operators %s rank below operators %s in QOperation (the order TemplateCore::evaluate climbs by)' % (', '.join(lo), ', '.join(hi)), _OPS_LOC))
+    return out
 
 PRE = '''
 typedef signed __CPROVER_bitvector[132] mz_t;
